@@ -3776,3 +3776,48 @@ func ruleEveryValueUnderMergeTest(c *eng.Ctx) {
 		c.Undec(R, "xlsx#values", token.NoPos, "no read of Cell.Value that is handed on was found in the writers")
 	}
 }
+
+// ---------------------------------------------------------------------------------------------------------------
+// R18.17 the PPTX reader does not require slide parts to have the conventional file name.
+
+// R18.17 [C18]
+func ruleSlidePartsByDeclaration(c *eng.Ctx) {
+	const R = "R18.17-SLIDE-PARTS-BY-DECLARATION"
+	c.Rule(R, "pptx.(*Reader).validate refuses a package for having no member named like ppt/slides/slide*.xml only when the package also lacks the presentation's relationships part (ppt/_rels/presentation.xml.rels), through which parseSlides resolves the declared slide list to parts of any name: which parts are slides is declared, not spelled in their file names", 1, 0)
+	fn := c.P.Func("pptx.(*Reader).validate")
+	if fn == nil {
+		c.Undec(R, "pptx.(*Reader).validate", token.NoPos, "anchor not found")
+		return
+	}
+	byName, relsSeen := false, false
+	for _, h := range eng.Cluster(fn, 1) {
+		if h.Pkg != fn.Pkg {
+			continue
+		}
+		eng.Instrs(h, true, func(in ssa.Instruction) {
+			if ci, ok := in.(ssa.CallInstruction); ok {
+				n := eng.CalleeName(ci)
+				if n == "strings.HasPrefix" || n == "strings.Contains" || n == "path.Match" || n == "path/filepath.Match" {
+					for _, a := range ci.Common().Args {
+						if s, ok := eng.ConstString(a); ok && strings.Contains(s, "slides/slide") {
+							byName = true
+						}
+					}
+				}
+			}
+			for _, op := range in.Operands(nil) {
+				if op == nil || *op == nil {
+					continue
+				}
+				if s, ok := eng.ConstString(*op); ok && strings.HasSuffix(s, "presentation.xml.rels") {
+					relsSeen = true
+				}
+			}
+		})
+	}
+	if !byName {
+		c.Ok(R, eng.FuncName(fn)+"#slides", fn.Pos(), "validate does not look for slide parts by file name")
+		return
+	}
+	c.Check(relsSeen, R, eng.FuncName(fn)+"#slides", fn.Pos(), "the file-name test is only a fallback next to the relationships part", "validate looks for members named ppt/slides/slide* and never for the presentation's relationships part: a presentation whose declared slide parts have other names is refused although parseSlides could read it")
+}
